@@ -242,6 +242,8 @@ class Graph:
                             lab = 'macro:' + macro      # code generated by a macro: keyed by the macro, not by its argument text
                         if '{' in lab:
                             lab = lab[:lab.index('{') + 1]      # a closure / async block argument: its text is not part of the key
+                        if (c or '').startswith('tokio::'):
+                            lab = 'tokio'      # runtime-context panics (no runtime / no time driver): the argument text is irrelevant to the key
                         src = Source(p, 'may-panic-call', short(c), lab, where, macro)
                         src.discharged = lock_poison(t) or (consumed_prefix(self.facts, p, t.get('fn_sp') or sp, 'advance') if (c or '').endswith('>::advance') else None)
                         out.append(src)
